@@ -7,7 +7,7 @@ use crate::rtok::*;
 use encoding_rs::Encoding;
 use serde_json::{Value, json};
 
-const RULE: &str = "every string over the 21-character alphabet Sigma ('<' '>' '&' quotes '-' '!' '/' '=' space TAB LF NUL a A and non-ASCII incl. non-BMP / unmappable) of length<=n, used as (i) Text content at 10 insertion points in Data, RCDATA and script contexts, (ii) set_attribute value, (iii) set_attribute name, (iv) set_tag_name, (v) Comment::set_text, x encodings; oracle: if the setter returns Err the output equals the unedited output; otherwise the output re-tokenised by html5ever has the unedited token skeleton plus exactly the inserted text / attribute / comment text / renamed tag, the inserted bytes are the encoding_rs encoding of the escaped string, and (for '&'-free strings) the re-read value equals the input; non-trivial = distinct (sink, string) containing a markup-significant character";
+const RULE: &str = "every string over the 21-character alphabet Sigma ('<' '>' '&' quotes '-' '!' '/' '=' space TAB LF NUL a A and non-ASCII incl. non-BMP / unmappable) of length<=n, used as (i) Text content at 10 insertion points in Data, RCDATA and script contexts, (ii) set_attribute value, (iii) set_attribute name, (iv) set_tag_name, (v) Comment::set_text, (vi) set_attribute on a tag that spells the name twice, (vii) text-chunk before/after/replace inside style, xmp, script and CDATA, x encodings; oracle: if the setter returns Err the output equals the unedited output; otherwise the output re-tokenised by html5ever has the unedited token skeleton plus exactly the inserted text / attribute / comment text / renamed tag, the inserted bytes are the encoding_rs encoding of the escaped string, and (for '&'-free strings) the re-read value equals the input; non-trivial = distinct (sink, string) containing a markup-significant character";
 
 const DOC: &str = "<div id=x>t</div><!--c--><title>r</title><script>s</script><p>";
 
@@ -215,7 +215,78 @@ pub fn check(sink: Sink, s: &str, enc: &'static Encoding) -> Option<String> {
     None
 }
 
+// ---------------------------------------------------------------------------------------------
+// second document: duplicate attribute names, text-chunk level insertion in raw-text contexts
+// ---------------------------------------------------------------------------------------------
+
+const DOC2: &str = "<a href=old k=1 HREF=dup>t</a><style>s</style><xmp>x</xmp><script>j</script><svg><![CDATA[c]]></svg><p>";
+/// (selector of the text handler, what the context is)
+const RAW_CTX: &[&str] = &["style", "xmp", "script", "svg", "a"];
+
+/// kind 0: set_attribute("href", s) on a tag that spells href twice; kinds 1..=15: text-chunk
+/// before / after / replace with the Text content type inside style, xmp, script, CDATA, data.
+pub fn check2(kind: usize, s: &str, enc: &'static Encoding) -> Option<String> {
+    let cfg = if kind == 0 {
+        Cfg::with(vec![HSpec::with_ops(HKind::Element, "a", vec![Op::SetAttr("href".into(), s.to_string())])])
+    } else {
+        let ctx = RAW_CTX[(kind - 1) / 3];
+        let op = match (kind - 1) % 3 {
+            0 => Op::Before(s.to_string(), false),
+            1 => Op::After(s.to_string(), false),
+            _ => Op::Replace(s.to_string(), false),
+        };
+        Cfg::with(vec![HSpec { last_only: true, ..HSpec::with_ops(HKind::Text, ctx, vec![op]) }])
+    }
+    .enc(enc.name());
+    let p = Prepared::new(cfg).ok()?;
+    let input = enc.encode(DOC2).0.into_owned();
+    let rr = run(&p, &[&input], true);
+    if let Some(m) = rr.panicked() {
+        return Some(format!("panic: {m}"));
+    }
+    if !rr.all_ok() {
+        return Some(format!("run failed: {:?}", rr.first_failure().map(|(_, r)| r.short())));
+    }
+    if rr.events.iter().any(|e| matches!(e, Ev::OpRes { ok: false, .. })) {
+        return if rr.out != input { Some(format!("setter returned Err for {:?} but the output changed", s)) } else { None };
+    }
+    let (decoded, had_errors) = enc.decode_without_bom_handling(&rr.out);
+    if had_errors {
+        return Some(format!("output is not valid {}: {}", enc.name(), hex(&rr.out)));
+    }
+    let w0 = whatwg_tokens(DOC2);
+    let w1 = whatwg_tokens(&decoded);
+    let (sk0, sk1) = (skeleton(&w0), skeleton(&w1));
+    let where_ = format!("document 2, kind {kind} with {:?} in {}: output {:?}", s, enc.name(), decoded);
+    if kind == 0 {
+        if sk1.len() != sk0.len() || sk1[1..] != sk0[1..] || all_text(&w1) != all_text(&w0) {
+            return Some(format!("{where_}: attribute value changed the token structure"));
+        }
+        let Some(Tok::Start { name, attrs, .. }) = sk1.first() else { return Some(format!("{where_}: no start tag")) };
+        // the re-parsed tag: the first href is the effective one and carries the new value
+        if name != "a" || attrs.len() != 2 || attrs[0].0 != "href" || attrs[1] != ("k".to_string(), "1".to_string()) {
+            return Some(format!("{where_}: attributes after set_attribute on a duplicated name: {:?}", attrs));
+        }
+        if exact_comparable(s) && !s.contains('&') && attrs[0].1 != through_encoding(s, enc) {
+            return Some(format!("{where_}: the effective (first) href is {:?}, expected the value that was set", attrs[0].1));
+        }
+    } else {
+        if sk1 != sk0 {
+            return Some(format!("{where_}: text inserted through a text chunk changed the markup structure: {:?} vs {:?}", sk1, sk0));
+        }
+        let esc = escape_text(s);
+        let needle = enc.encode(&esc).0.into_owned();
+        if !needle.is_empty() && !rr.out.windows(needle.len()).any(|w| w == needle) {
+            return Some(format!("{where_}: the inserted bytes are not encode(escape(text))"));
+        }
+    }
+    None
+}
+
 pub fn replay(case: &Value) -> Option<String> {
+    if let Some(kind) = case["kind2"].as_u64() {
+        return check2(kind as usize, case["string"].as_str()?, Encoding::for_label(case["encoding"].as_str()?.as_bytes())?);
+    }
     let sink = SINKS[case["sink"].as_u64()? as usize];
     let s = case["string"].as_str()?;
     let enc = Encoding::for_label(case["encoding"].as_str()?.as_bytes())?;
@@ -265,6 +336,31 @@ pub fn run_check(ctx: &Ctx) -> i32 {
     });
     if !ctx.capped.load(std::sync::atomic::Ordering::Relaxed) {
         ctx.level_done(&format!("every Sigma-string of length<={max} x {} sinks x {} encodings", SINKS.len(), encs.len()));
+    }
+    let max2 = if quick { 3 } else { 4 };
+    let n2 = crate::alpha::count_upto(k, max2);
+    let kinds = 1 + 3 * RAW_CTX.len();
+    par_for(n2, 16, |i| {
+        if ctx.over_time() {
+            return;
+        }
+        let mut idx = vec![];
+        crate::alpha::seq_at(i, k, &mut idx);
+        let s: String = idx.iter().map(|&j| SIGMA[j]).collect();
+        for enc in &encs {
+            for kind in 0..kinds {
+                ctx.exec(2);
+                ctx.validated(1);
+                if let Some(msg) = check2(kind, &s, enc) {
+                    let case = json!({"kind2": kind, "string": s, "encoding": enc.name()});
+                    let c2 = case.clone();
+                    ctx.violation(msg, case, &|| replay(&c2));
+                }
+            }
+        }
+    });
+    if !ctx.capped.load(std::sync::atomic::Ordering::Relaxed) {
+        ctx.level_done(&format!("every Sigma-string of length<={max2} x {{set_attribute on a duplicated attribute name, text-chunk before/after/replace (Text) inside style, xmp, script, CDATA and data}} x {} encodings", encs.len()));
     }
     ctx.finish(
         "model_checking",
